@@ -48,10 +48,10 @@ def body():
         if rb is not None:
             behs, n_edge = rb, len(rb)
         # (B) real code
-        drv = V.build_driver()
+        drv = V.build_driver("epoch")
         bf, tf = sc.path("beh.json"), sc.path("trace.ndjson")
         json.dump(behs, open(bf, "w"))
-        V.run_driver(drv, ["epoch", "-in", bf, "-out", tf])
+        V.run_driver(drv, ["-in", bf, "-out", tf])
         # (C) judge
         info = V.validate_traces("EpochTrace.tla", "EpochTrace.cfg", tf, sc)
         if not info["consumed_ok"]:
